@@ -10,6 +10,7 @@ try:
         Group,
         OneOrMore,
         Optional,
+        Regex,
         Suppress,
         Word,
         ZeroOrMore,
@@ -402,7 +403,8 @@ class NETReader:
         """
         # Defining an expression for valid word
         word_expr = Word(alphanums + "_" + "-")("nodename")
-        name_expr = Suppress("node ") + word_expr + Optional(Suppress("{"))
+        node_keyword = Suppress(Regex(r"(?<![\w-])node\s"))
+        name_expr = node_keyword + word_expr + Optional(Suppress("{"))
 
         word_expr2 = Word(initChars=printables, excludeChars=["(", ")", ",", " "])
         state_expr = ZeroOrMore(word_expr2 + Optional(Suppress(",")))
@@ -420,7 +422,7 @@ class NETReader:
         property_expr = ZeroOrMore(pexpr)  # Creating an expr to find property
 
         variable_property_expr = (
-            Suppress("node ")
+            node_keyword
             + Word(alphanums + "_" + "-")("varname")
             + Suppress("{")
             + Group(property_expr)("properties")
